@@ -56,6 +56,9 @@ type Failure struct {
 	Output string
 }
 
+// SkipDriver makes BuildUnits compile the models package only (no driver binary).
+var SkipDriver bool
+
 var unitSeq struct {
 	sync.Mutex
 	n int
@@ -139,7 +142,12 @@ func buildOne(c *core.Ctx, swagger string, groups []Group, extraArgs []string) (
 		core.Must(os.WriteFile(filepath.Join(drvDir, "main.go"), []byte(strings.ReplaceAll(driverMain, "MODPATH", u.Mod.Path)), 0o644))
 		core.Must(os.WriteFile(filepath.Join(drvDir, "registry.go"), []byte(u.registrySource()), 0o644))
 		u.Drv = filepath.Join(u.Mod.Dir, "vfdrv.bin")
-		br := core.Run(u.Mod.Dir, core.GoEnv(), 15*time.Minute, "", "go", "build", "-gcflags=-e", "-o", u.Drv, "./cmd/vfdrv")
+		var br core.Result
+		if SkipDriver {
+			br = core.Run(u.Mod.Dir, core.GoEnv(), 15*time.Minute, "", "go", "build", "-gcflags=-e", "./models")
+		} else {
+			br = core.Run(u.Mod.Dir, core.GoEnv(), 15*time.Minute, "", "go", "build", "-gcflags=-e", "-o", u.Drv, "./cmd/vfdrv")
+		}
 		if br.TimedOut {
 			return nil, "watchdog", "build-timeout"
 		}
